@@ -13,10 +13,12 @@ from orquesta import statuses as S
 from vt import defs
 from vt.env import Env, Policy, Violation
 from vt.harness.common import ob
-from vt.monitors import C02Truth, C03Quiescence, C09Pause, C10Cancel, count
+from vt.monitors import C02Truth, C03Quiescence, C04Terminal, C09Pause, C10Cancel, count
 
 
 class HeldEnv(Env):
+    late_answers = False
+
     def hold(self, idx, kind):
         act = self.inflight.pop(idx)
         self.log.append("~%s:%s" % (act.label(), kind))
@@ -55,6 +57,17 @@ class HeldEnv(Env):
                         self.offers()
                     if self.inflight or (self.held and self.step < p.steps):
                         continue
+                if self.late_answers and self.held and st in (S.CANCELED, S.FAILED, S.SUCCEEDED) and self.step < p.steps:
+                    # the answer of a pending action arrives after the workflow has reached a terminal status
+                    act, kind = self.held.pop(0)
+                    self.inflight.append(act)
+                    status, result = self.choose_outcome(act)
+                    self.log.append("(late answer)")
+                    count(self, "a5_late_answer")
+                    self.report(len(self.inflight) - 1, status, result)
+                    self.step += 1
+                    self.offers()
+                    continue
                 if not self.held:
                     for m in self.monitors:
                         m.on_quiescent(self)
@@ -79,12 +92,13 @@ class HeldEnv(Env):
         return self.status()
 
 
-MONITORS = {"C02": lambda: [C02Truth()], "C03": lambda: [C03Quiescence()], "C09": lambda: [C09Pause()], "C10": lambda: [C10Cancel()]}
+MONITORS = {"C04": lambda: [C04Terminal()], "C02": lambda: [C02Truth()], "C03": lambda: [C03Quiescence()], "C09": lambda: [C09Pause()], "C10": lambda: [C10Cancel()]}
 
 
-def held_actions(ch, ctx, prop, steps=7, control="pause", twin=False, did="D21"):
+def held_actions(ch, ctx, prop, steps=7, control="pause", twin=False, did="D21", late_answers=False):
     wf = defs.get(did)
     env = HeldEnv(ch, wf, prop, monitors=MONITORS[prop](), policy=Policy(steps=steps, control=control))
+    env.late_answers = late_answers
     env.counters = ctx["counters"]
     try:
         env.run()
